@@ -336,3 +336,311 @@ theorem deleteLines_ok {g : Grid} (h : GridInv W g true) (hl : g.rows.length = g
   · simp only [List.length_eraseIdx, hlen2]; simp [hp]; exact hs.len
 
 end Vt
+
+namespace Vt
+set_option linter.unusedSimpArgs false
+variable (W : Nat → Option Nat)
+
+/-- the invariant of SU / LF-at-the-margin: like `LinesInv`, but the history may grow and the
+view offset may follow it -/
+structure ScrollInv (g0 g : Grid) : Prop where
+  inv : GridInv W g true
+  len : g.rows.length = g.size.rows
+  size : g.size = g0.size
+  pos : g.pos = g0.pos
+  top : g.scrollTop = g0.scrollTop
+  bottom : g.scrollBottom = g0.scrollBottom
+  cap : g.scrollbackLen = g0.scrollbackLen
+
+theorem scrollInv_refl {g : Grid} (h : GridInv W g true) (hl : g.rows.length = g.size.rows) :
+    ScrollInv W g g := ⟨h, hl, rfl, rfl, rfl, rfl, rfl⟩
+
+/-- one step of SU -/
+theorem scrollUp_step_ok {g0 g : Grid} (h : ScrollInv W g0 g) :
+    ∃ g', (do
+      let rows ← insertM 438 g.rows (g.scrollBottom + 1) g.newRow
+      let (removed, rows) ← removeM 439 rows g.scrollTop
+      let g := { g with rows := rows }
+      if g.scrollbackLen > 0 then do
+        let active ← g.scrollRegionActive
+        if !active then
+          let sb := g.scrollback ++ [removed]
+          let sb := sb.drop (sb.length - g.scrollbackLen)
+          let off := if g.scrollbackOffset > 0 then min sb.length (g.scrollbackOffset + 1)
+                     else g.scrollbackOffset
+          pure { g with scrollback := sb, scrollbackOffset := off }
+        else pure g
+      else pure g) = .ok g' ∧ ScrollInv W g0 g' := by
+  have hi := h.inv
+  have hb : g.scrollBottom + 1 ≤ g.rows.length := by rw [h.len]; have := hi.region_lt; omega
+  have hlen2 : (g.rows.take (g.scrollBottom + 1) ++ g.newRow :: g.rows.drop (g.scrollBottom + 1)).length
+      = g.rows.length + 1 := by
+    simp [List.length_take]; omega
+  have ht : g.scrollTop < g.rows.length + 1 := by
+    rw [h.len]; have := hi.region_lt; have := hi.region_le; omega
+  rw [insertM_ok _ _ _ _ hb]
+  simp only [ok_bind]
+  rw [removeM_ok _ _ _ (by rw [hlen2]; exact ht)]
+  simp only [ok_bind]
+  generalize hrm : (g.rows.take (g.scrollBottom + 1) ++ g.newRow :: g.rows.drop (g.scrollBottom + 1))[g.scrollTop]'(by rw [hlen2]; exact ht) = removed
+  have hremoved : RowGood W g.size.cols removed := by
+    have hmem := List.getElem_mem (l := g.rows.take (g.scrollBottom + 1) ++ g.newRow :: g.rows.drop (g.scrollBottom + 1))
+      (by rw [hlen2]; exact ht)
+    rw [hrm] at hmem
+    rcases mem_insert_cases hmem with h1 | h1
+    · rw [h1]; exact rowGood_new W _ hi.cols_pos
+    · exact hi.row_ok _ h1
+  have hrows : GridInv W { g with rows := (g.rows.take (g.scrollBottom + 1) ++ g.newRow ::
+      g.rows.drop (g.scrollBottom + 1)).eraseIdx g.scrollTop } true := by
+    refine gridInv_rows W hi _ ?_ ?_
+    · simp only [List.length_eraseIdx, hlen2]; simp [ht]
+    · intro r hr
+      rcases mem_insert_cases (List.mem_of_mem_eraseIdx hr) with rfl | hr
+      · exact rowGood_new W _ hi.cols_pos
+      · exact hi.row_ok _ hr
+  have hrl : ((g.rows.take (g.scrollBottom + 1) ++ g.newRow ::
+      g.rows.drop (g.scrollBottom + 1)).eraseIdx g.scrollTop).length = g.size.rows := by
+    simp only [List.length_eraseIdx, hlen2]; simp [ht]; exact h.len
+  by_cases hcap : g.scrollbackLen > 0
+  · simp only [hcap, ↓reduceIte, Grid.scrollRegionActive, subM_ok hi.rows_pos, ok_bind, pure_eq_ok]
+    by_cases hact : (g.scrollTop != 0 || g.scrollBottom != g.size.rows - 1) = true
+    · simp only [hact, Bool.not_true, Bool.false_eq_true, ↓reduceIte]
+      exact ⟨_, rfl, hrows, hrl, h.size, h.pos, h.top, h.bottom, h.cap⟩
+    · simp only [hact, Bool.not_false, ↓reduceIte]
+      refine ⟨_, rfl, ?_, hrl, h.size, h.pos, h.top, h.bottom, h.cap⟩
+      refine { hrows with sb_len := ?_, sb_off := ?_, sb_ok := ?_ }
+      · simp only [List.length_drop, List.length_append, List.length_cons, List.length_nil]; omega
+      · simp only
+        split
+        · exact Nat.min_le_left _ _
+        · have := hi.sb_off; omega
+      · intro r hr
+        rcases List.mem_append.mp (List.mem_of_mem_drop hr) with h1 | h1
+        · exact hi.sb_ok r h1
+        · simp only [List.mem_singleton] at h1
+          rw [h1]; exact hremoved.2
+  · simp only [hcap, ↓reduceIte, pure_eq_ok]
+    exact ⟨_, rfl, hrows, hrl, h.size, h.pos, h.top, h.bottom, h.cap⟩
+
+/-- SU n, for every n -/
+theorem scrollUp_ok {g : Grid} (h : GridInv W g true) (hl : g.rows.length = g.size.rows) (count : Nat) :
+    ∃ g', g.scrollUp count = .ok g' ∧ ScrollInv W g g' := by
+  unfold Grid.scrollUp
+  rw [subM_ok (by have := h.region_lt; have := h.region_le; omega)]
+  simp only [ok_bind]
+  exact iterateM_inv (ScrollInv W g) _ _ g (scrollInv_refl W h hl) (fun s hs => scrollUp_step_ok W hs)
+
+end Vt
+
+namespace Vt
+set_option linter.unusedSimpArgs false
+variable (W : Nat → Option Nat)
+
+/-- DCH n, for every n -/
+theorem deleteCells_ok {g : Grid} (h : GridInv W g true) (hlen : g.rows.length = g.size.rows) (count : Nat) :
+    ∃ g', g.deleteCells count = .ok g' ∧ GridInv W g' true ∧ g'.rows.length = g'.size.rows ∧
+      g'.size = g.size ∧ g'.scrollbackLen = g.scrollbackLen := by
+  unfold Grid.deleteCells
+  obtain ⟨g', h1, h2, h3, h4, _, h5, _⟩ := modifyCurrentRow_ok W h hlen
+    (fun row => do
+      let d ← subM 424 g.size.cols g.pos.col
+      let row ← iterateM (min count d) (fun row => row.remove g.pos.col) row
+      pure (row.resize g.size.cols Cell.new))
+    (by
+      intro r hr
+      simp only [subM_ok h.pos_col, ok_bind]
+      obtain ⟨r1, hr1, hP⟩ := iterateM_inv_idx
+        (fun k (row : Row) => CellsInv W row.cells ∧ row.cells.length = g.size.cols - k)
+        (fun row => row.remove g.pos.col) (min count (g.size.cols - g.pos.col)) r
+        ⟨rowGood_cells W hr, by simp [hr.1]⟩
+        (by
+          intro k row hk ⟨hci, hl⟩
+          have hi : g.pos.col < row.cells.length := by rw [hl]; omega
+          obtain ⟨r', e1, e2, e3, _⟩ := remove_ok W hci hi
+          exact ⟨r', e1, e2, by rw [e3, hl]; omega⟩)
+      obtain ⟨i1, i2, _⟩ := resize_inv W (len := g.size.cols) hP.1 h.cols_pos
+      exact ⟨r1.resize g.size.cols Cell.new, by simp [hr1], rowGood_of W i2 h.cols_pos i1⟩)
+  exact ⟨g', h1, h2, h3, h4, h5⟩
+
+theorem cellOk_blank_cont : cellOk W (Cell.new.setWideContinuation true) = true := by
+  simp [cellOk, Cell.new, Cell.setWideContinuation, Utf8.fromUtf8]
+
+theorem cellOk_uncont {c : Cell} (h : cellOk W c = true) (hc : c.cont = true) :
+    cellOk W (c.setWideContinuation false) = true := by
+  obtain ⟨hw, hl⟩ := cellOk_cont W c h hc
+  simp only [cellOk, Bool.and_eq_true, decide_eq_true_eq, beq_iff_eq, List.all_eq_true] at h
+  obtain ⟨⟨⟨⟨h1, _⟩, h3⟩, _⟩, _⟩ := h
+  simp [cellOk, Cell.setWideContinuation, h1, hl, hw, Utf8.fromUtf8]
+  exact h3
+
+/-- one step of ICH's loop on a row, cursor not on a continuation cell -/
+theorem insert_plain_ok {r : Row} {i : Nat} (hinv : CellsInv W r.cells) (hi : i ≤ r.cells.length)
+    (hflag : pairThrough false (r.cells.take i) = some false) :
+    ∃ r', Grid.insertStep false i r = .ok r' ∧ CellsInv W r'.cells ∧ r'.cells.length = r.cells.length + 1 ∧
+      pairThrough false (r'.cells.take i) = some false := by
+  refine ⟨⟨r.cells.take i ++ Cell.new :: r.cells.drop i, false⟩,
+    by simp [Grid.insertStep, Row.insert, insertM, hi], ?_, ?_, ?_⟩
+  · constructor
+    · intro x hx
+      rcases mem_insert_cases hx with rfl | hx
+      · exact cellOk_new' W
+      · exact hinv.cells_ok x hx
+    · obtain ⟨p, e1, e2⟩ := pairThrough_cut i hinv.paired
+      rw [hflag] at e1
+      have hp : p = false := (Option.some.inj e1).symm
+      subst hp
+      have := pairThrough_splice (mid := [Cell.new]) hflag (by simp [pairThrough, Cell.new]) e2
+      simpa using this
+  · simp [List.length_take]; omega
+  · simp only
+    rw [List.take_append_of_le_length (by simp [List.length_take]; omega)]
+    simp [List.take_take, hflag]
+
+/-- one step of ICH's loop on a row, cursor on a continuation cell: the continuation flag moves to
+the inserted blank, so the wide character stays whole -/
+theorem insert_wide_ok {r : Row} {i : Nat} {c : Cell} (hinv : CellsInv W r.cells)
+    (hc : r.cells[i]? = some c) (hcc : c.cont = true) :
+    ∃ r' c', Grid.insertStep true i r = .ok r' ∧ CellsInv W r'.cells ∧
+      r'.cells.length = r.cells.length + 1 ∧ r'.cells[i]? = some c' ∧ c'.cont = true := by
+  obtain ⟨a, b, hab, hl⟩ := decomp1 hc
+  have hcok := hinv.cells_ok c (List.mem_of_getElem? hc)
+  obtain ⟨hcw, _⟩ := cellOk_cont W c hcok hcc
+  have hp := hinv.paired
+  rw [hab] at hp
+  obtain ⟨p, e1, e2, e3⟩ := paired_decomp1 hp
+  refine ⟨⟨a ++ Cell.new.setWideContinuation true :: c.setWideContinuation false :: b, false⟩,
+    Cell.new.setWideContinuation true, ?_, ?_, ?_, ?_, rfl⟩
+  · subst hl
+    obtain ⟨cs, wr⟩ := r
+    simp only at hab
+    subst hab
+    simp [Grid.insertStep, modifyM, Row.insert, insertM, List.getElem?_append_right, List.set_append_right,
+      List.take_append_of_le_length, List.drop_append_of_le_length]
+  · constructor
+    · intro x hx
+      rcases List.mem_append.mp hx with hx | hx
+      · exact hinv.cells_ok x (by rw [hab]; simp [hx])
+      · rcases List.mem_cons.mp hx with rfl | hx
+        · exact cellOk_blank_cont W
+        · rcases List.mem_cons.mp hx with rfl | hx
+          · exact cellOk_uncont W hcok hcc
+          · exact hinv.cells_ok x (by rw [hab]; simp [hx])
+    · have := pairThrough_splice (mid := [Cell.new.setWideContinuation true, c.setWideContinuation false])
+        (b := b) e1
+        (by simp [pairThrough, Cell.new, Cell.setWideContinuation, ← e2, hcc] :
+          pairThrough p [Cell.new.setWideContinuation true, c.setWideContinuation false] = some c.wide)
+        e3
+      simpa using this
+  · rw [hab]; simp; omega
+  · subst hl; simp
+
+/-- ICH n, for every n -/
+theorem insertCells_ok {g : Grid} (h : GridInv W g true) (hlen : g.rows.length = g.size.rows) (count : Nat) :
+    ∃ g', g.insertCells count = .ok g' ∧ GridInv W g' true ∧ g'.rows.length = g'.size.rows ∧
+      g'.size = g.size ∧ g'.scrollbackLen = g.scrollbackLen := by
+  have hrow : g.pos.row < g.rows.length := by rw [hlen]; exact h.pos_row
+  have hget := List.getElem?_eq_getElem hrow
+  generalize hr0 : g.rows[g.pos.row] = row0 at hget
+  have hgood0 : RowGood W g.size.cols row0 := by rw [← hr0]; exact h.row_ok _ (List.getElem_mem hrow)
+  have hci0 := rowGood_cells W hgood0
+  unfold Grid.insertCells
+  by_cases hcol : g.pos.col < g.size.cols
+  · have hcl : g.pos.col < row0.cells.length := by rw [hgood0.1]; exact hcol
+    have hcg := List.getElem?_eq_getElem hcl
+    generalize row0.cells[g.pos.col] = c0 at hcg
+    simp only [hcol, ↓reduceIte, Grid.drawingCellM, Grid.drawingCell, Grid.drawingRow, hget,
+      Option.bind_some, Row.get, hcg, ok_bind, pure_bind', pure_eq_ok, Cell.isWideContinuation]
+    by_cases hcont : c0.cont = true
+    · -- cursor on a continuation cell
+      simp only [Grid.modifyCurrentRow, modifyM, hget, hcont, ↓reduceIte]
+      obtain ⟨r1, hr1, hP⟩ := iterateM_inv
+        (fun (row : Row) => CellsInv W row.cells ∧ g.size.cols ≤ row.cells.length ∧
+          ∃ c, row.cells[g.pos.col]? = some c ∧ c.cont = true)
+        (Grid.insertStep true g.pos.col) (min count g.size.cols) row0 ⟨hci0, by rw [hgood0.1]; exact Nat.le_refl _, c0, hcg, hcont⟩
+        (by
+          intro row ⟨hci, hl, c, hc, hcc⟩
+          obtain ⟨r', c', e1, e2, e3, e4, e5⟩ := insert_wide_ok W hci hc hcc
+          exact ⟨r', e1, e2, by omega, c', e4, e5⟩)
+      obtain ⟨r2, hr2, i1, i2, _⟩ := truncate_ok W hP.1 h.cols_pos hP.2.1
+      refine ⟨{ g with rows := g.rows.set g.pos.row r2 }, ?_,
+        gridInv_setRow W h _ _ (rowGood_of W i2 h.cols_pos i1), by simpa using hlen, rfl, rfl⟩
+      simp only [hr1, ok_bind, hr2, pure_bind', pure_eq_ok]
+    · -- cursor on an ordinary cell
+      have hcont' : c0.cont = false := by simpa using hcont
+      simp only [Grid.modifyCurrentRow, modifyM, hget, hcont', Bool.false_eq_true, ↓reduceIte, pure_bind',
+        pure_eq_ok, ok_bind]
+      obtain ⟨p, f1, f2, _⟩ := pairThrough_split hcg hci0.paired
+      have hflag0 : pairThrough false (row0.cells.take g.pos.col) = some false := by
+        rw [f1, ← f2, hcont']
+      obtain ⟨r1, hr1, hP⟩ := iterateM_inv
+        (fun (row : Row) => CellsInv W row.cells ∧ g.size.cols ≤ row.cells.length ∧
+          pairThrough false (row.cells.take g.pos.col) = some false)
+        (Grid.insertStep false g.pos.col) (min count g.size.cols) row0
+        ⟨hci0, by rw [hgood0.1]; exact Nat.le_refl _, hflag0⟩
+        (by
+          intro row ⟨hci, hl, hf⟩
+          obtain ⟨r', e1, e2, e3, e4⟩ := insert_plain_ok W hci (by omega) hf
+          exact ⟨r', e1, e2, by omega, e4⟩)
+      obtain ⟨r2, hr2, i1, i2, _⟩ := truncate_ok W hP.1 h.cols_pos hP.2.1
+      refine ⟨{ g with rows := g.rows.set g.pos.row r2 }, ?_,
+        gridInv_setRow W h _ _ (rowGood_of W i2 h.cols_pos i1), by simpa using hlen, rfl, rfl⟩
+      simp only [hr1, ok_bind, hr2, pure_bind', pure_eq_ok]
+  · -- pending-wrap column: the blanks are inserted past the end and truncated away
+    have hpc : g.pos.col = g.size.cols := by have := h.pos_col; omega
+    simp only [hcol, ↓reduceIte, pure_bind', pure_eq_ok, ok_bind, Grid.modifyCurrentRow, modifyM, hget,
+      Bool.false_eq_true]
+    have hflag0 : pairThrough false (row0.cells.take g.pos.col) = some false := by
+      rw [List.take_of_length_le (by rw [hgood0.1, hpc]; exact Nat.le_refl _)]; exact hci0.paired
+    obtain ⟨r1, hr1, hP⟩ := iterateM_inv
+      (fun (row : Row) => CellsInv W row.cells ∧ g.size.cols ≤ row.cells.length ∧
+        pairThrough false (row.cells.take g.pos.col) = some false)
+      (Grid.insertStep false g.pos.col) (min count g.size.cols) row0
+      ⟨hci0, by rw [hgood0.1]; exact Nat.le_refl _, hflag0⟩
+      (by
+        intro row ⟨hci, hl, hf⟩
+        obtain ⟨r', e1, e2, e3, e4⟩ := insert_plain_ok W hci (by omega) hf
+        exact ⟨r', e1, e2, by omega, e4⟩)
+    obtain ⟨r2, hr2, i1, i2, _⟩ := truncate_ok W hP.1 h.cols_pos hP.2.1
+    refine ⟨{ g with rows := g.rows.set g.pos.row r2 }, ?_,
+      gridInv_setRow W h _ _ (rowGood_of W i2 h.cols_pos i1), by simpa using hlen, rfl, rfl⟩
+    simp only [hr1, ok_bind, hr2, pure_bind', pure_eq_ok]
+
+end Vt
+
+namespace Vt
+set_option linter.unusedSimpArgs false
+variable (W : Nat → Option Nat)
+
+/-- the outcome of a grid operation that keeps the invariant, the size and the capacity -/
+structure StepOk (g g' : Grid) : Prop where
+  inv : GridInv W g' true
+  len : g'.rows.length = g'.size.rows
+  size : g'.size = g.size
+  cap : g'.scrollbackLen = g.scrollbackLen
+
+/-- the operation never fails on `g` and keeps the invariant -/
+def Total (f : Grid → M Grid) (g : Grid) : Prop := ∃ g', f g = .ok g' ∧ StepOk W g g'
+
+theorem stepOk_refl {g : Grid} (h : GridInv W g true) (hl : g.rows.length = g.size.rows) : StepOk W g g :=
+  ⟨h, hl, rfl, rfl⟩
+
+theorem stepOk_trans {a b c : Grid} (h1 : StepOk W a b) (h2 : StepOk W b c) : StepOk W a c :=
+  ⟨h2.inv, h2.len, h2.size.trans h1.size, h2.cap.trans h1.cap⟩
+
+theorem total_bind {f k : Grid → M Grid} {g : Grid} (h1 : Total W f g)
+    (h2 : ∀ g', StepOk W g g' → Total W k g') : Total W (fun g => f g >>= k) g := by
+  obtain ⟨g1, e1, s1⟩ := h1
+  obtain ⟨g2, e2, s2⟩ := h2 g1 s1
+  exact ⟨g2, by simp [e1, e2], stepOk_trans W s1 s2⟩
+
+/-- changing only the cursor to a valid position keeps the invariant -/
+theorem stepOk_pos {g : Grid} (h : GridInv W g true) (hl : g.rows.length = g.size.rows) (p : Pos)
+    (hr : p.row < g.size.rows) (hc : p.col ≤ g.size.cols) : StepOk W g { g with pos := p } :=
+  ⟨{ h with pos_row := hr, pos_col := hc }, hl, rfl, rfl⟩
+
+variable {W}
+
+theorem total_of_eq {f : Grid → M Grid} {g g' : Grid} (he : f g = .ok g') (hs : StepOk W g g') :
+    Total W f g := ⟨g', he, hs⟩
+
+end Vt
